@@ -57,8 +57,8 @@ SEEDS = [
     {"name": "nc-names", "platform": "ios", "kwargs": {"version": "16.09.06"},
      "lines": ["permit tcp 10.0.0.0 0.0.3.3 any eq msrpc", "permit tcp 10.0.0.0 0.0.1.3 any eq 135",
                "permit udp any any eq ripv6 syslog", "permit tcp any any eq cmd", "deny 47 any 10.0.0.0 0.255.0.255"]},
-    {"name": "wide-nc", "platform": "ios", "kwargs": {},
-     "lines": ["remark = WIDE", "permit ip 10.0.0.0 0.255.85.170 any", "permit tcp 10.0.0.0 0.85.255.85 any eq 22", "remark = REST",
+    {"name": "wide-nc", "platform": "ios", "kwargs": {}, "short_only": True,
+     "lines": ["remark = WIDE", "permit ip 10.0.0.0 1.255.255.0 any", "remark = REST", "permit tcp host 10.0.0.5 any eq 22",
                "deny ip any any"]},
     {"name": "numbered-dups", "platform": "ios", "kwargs": {},
      "lines": ["10 permit icmp any any", "20 permit tcp any any eq 25", "20 permit tcp any any eq 25", "30 remark dup", "30 remark dup",
@@ -375,11 +375,11 @@ def run(ctx) -> None:
     digests = {}
     plan = []
     for seed in SEEDS:
-        max_len = 3 if thorough else 2
+        max_len = 3 if thorough and not seed.get("short_only") else 2
         for length in range(1, max_len + 1):
             for ops in itertools.product(OPS, repeat=length):
                 plan.append((seed, list(ops)))
-        if thorough:
+        if thorough and not seed.get("short_only"):
             for ops in itertools.product(OPS8, repeat=4):
                 plan.append((seed, list(ops)))
     plan = [(K4_SEED, ops) for ops in K4_OPS] + plan
@@ -399,7 +399,7 @@ def run(ctx) -> None:
     for _ in range(n_rand):
         if ctx.expired():
             break
-        seed = rng.choice(SEEDS) if rng.random() < 0.5 else gen_seed(rng)
+        seed = rng.choice([sd for sd in SEEDS if not sd.get("short_only")]) if rng.random() < 0.5 else gen_seed(rng)
         ops = [rng.choice(OPS) for _ in range(rng.randint(3, 25 if thorough else 12))]
         s0 = ctx.counters.get("steps_judged", 0)
         run_sequence(ctx, seed, ops, digests)
